@@ -11,6 +11,9 @@ mod c07;
 mod c08;
 mod c12;
 mod c14;
+mod c16;
+#[cfg(feature = "hooks")]
+mod c17;
 mod c13;
 mod fp;
 mod grp;
@@ -70,6 +73,14 @@ fn model_selftest(full: bool) {
     }
 }
 
+#[cfg(not(feature = "hooks"))]
+fn no_hooks_run(run: &Run) {
+    run.machinery_error("built without the verif hooks: the hook module of /repo does not compile, C17 cannot run".into());
+}
+#[cfg(not(feature = "hooks"))]
+fn no_hooks_meta(_run: &Run) -> Meta {
+    Meta::default()
+}
 type RunFn = fn(&Run);
 type MetaFn = fn(&Run) -> Meta;
 type ReplayFn = fn(&Value) -> Result<(), Bad>;
@@ -87,6 +98,11 @@ fn table(id: &str) -> Option<(RunFn, MetaFn)> {
         "C09" => (c08::c09_run, c08::c09_meta),
         "C10" => (grp::c10_run, grp::c10_meta),
         "C15" => (grp::c15_run, grp::c15_meta),
+        "C16" => (c16::run, c16::meta),
+        #[cfg(feature = "hooks")]
+        "C17" => (c17::run, c17::meta),
+        #[cfg(not(feature = "hooks"))]
+        "C17" => (no_hooks_run, no_hooks_meta),
         "C07" => (c07::run, c07::meta),
         "C12" => (c12::run, c12::meta),
         "C13" => (c13::run, c13::meta),
@@ -105,6 +121,9 @@ fn replay_table(op: &str) -> Option<ReplayFn> {
         "c12" => c12::replay,
         "c13" => c13::replay,
         "c14" => c14::replay,
+        "c16" => c16::replay,
+        #[cfg(feature = "hooks")]
+        "c17" => c17::replay,
         _ => return None,
     })
 }
